@@ -8,7 +8,7 @@ DEFAULTS = dict(
     p_sel=.4, p_merge=.2, p_cycle=.12, p_multi_start=.15, p_multi_choice=.1,
     p_opt_existing=.15, p_single_opt=.06, p_dup_id=0.0,
     n_incompat=(0, 2), p_incompat=.5,
-    p_constraint=0.0, n_conn=(0, 0), p_grp=.3, p_excl=.3, p_conn_cond=.6,
+    p_constraint=0.0, n_conn=(0, 0), p_grp=.3, p_excl=.3, p_conn_cond=.6, max_side=3, max_side_total=5,
     n_dv=(0, 0), p_dv_cond=.6, p_dv_link=.0, n_metric=(0, 0),
     exotic=False, allow=(), forbid=(),
 )
@@ -178,8 +178,8 @@ def _grow(rnd, o):
             else:
                 add_edge(rnd.choice(pool_p or named), c)
 
-        src, sn = mk_side('A')
-        tgt, tn = mk_side('B')
+        src, sn = mk_side('A', o['max_side'])
+        tgt, tn = mk_side('B', min(o['max_side'], max(1, o['max_side_total'] - len(sn))))
         excl = []
         if rnd.random() < o['p_excl'] and len(sn) * len(tn) > 1:
             for _e in range(rnd.randint(1, 2)):
